@@ -93,6 +93,11 @@ def _table_cases():
     for sp in ('gpointer', 'gconstpointer', 'void*', 'constvoid*'):
         for pos in ('param', 'return', 'field'):
             cases.append({'kind': 'table', 'spelling': sp, 'pos': pos, 'variant': 'untyped'})
+    # parameters declared with array syntax: C adjusts `T x[]`, `T x[N]` to `T *x` (and `T *x[]` to `T **x`), so the
+    # description must be the one of the pointer spelling, c:type included
+    for sp in sorted(VALUE_TYPES) + list(STRING_SPELLINGS):
+        for variant in ('arr', 'arr4', 'constarr', 'ptrarr', 'constptrarr'):
+            cases.append({'kind': 'table', 'spelling': sp, 'pos': 'param', 'variant': variant})
     return cases
 
 
@@ -159,10 +164,36 @@ def _check_alias_return(case, ctx):
     ctx.note_nontrivial(case)
 
 
+def _check_array_param(case, ctx):
+    sp, variant = case['spelling'], case['variant']
+    q = CONST if variant.startswith('const') else 0
+    inner = [0] if 'ptrarr' in variant else []
+    arr = dict(_t(sp, q=q, ptrs=inner), dims=[4 if variant == 'arr4' else None])
+    ptr = _t(sp, q=q, ptrs=inner + [0])
+    got = []
+    for t in (arr, ptr):
+        decls = [{'d': 'function', 'name': 'foo_f', 'ret': ty('void', 'void'), 'params': [param('x', t)]}]
+        ns, res = _run(decls, [], ctx, includes=('GLib-2.0',))
+        f = ns.find(GI + 'function')
+        el = None if f is None else f.find(GI + 'parameters/' + GI + 'parameter')
+        if el is None:
+            raise Violation('element-missing', '%s as parameter' % cmodel.decl_text(t, 'x').strip())
+        kind, name, ctype, tel = _typeinfo(el)
+        inner_t = None if tel is None or tel.find(GI + 'type') is None else tel.find(GI + 'type').get('name')
+        got.append([kind, name, _norm_ctype(ctype), inner_t, el.get('transfer-ownership'), el.get('direction'), f.get('introspectable')])
+    if got[0] != got[1]:
+        raise Violation('array-declared-parameter-differs-from-pointer', '%s -> %r but %s -> %r'
+                        % (cmodel.decl_text(arr, 'x').strip(), got[0], cmodel.decl_text(ptr, 'x').strip(), got[1]))
+    ctx.label('table:array-param')
+    ctx.note_nontrivial(case)
+
+
 def _check_table(case, ctx):
     sp, pos, variant = case['spelling'], case['pos'], case['variant']
     if sp.startswith('typedef:'):
         return _check_alias_return(case, ctx)
+    if variant in ('arr', 'arr4', 'constarr', 'ptrarr', 'constptrarr'):
+        return _check_array_param(case, ctx)
     if variant == 'plain':
         t = _t(sp)
     elif variant == 'const':
